@@ -327,8 +327,12 @@ def tts_oracle(case, ctx):
         exp_xtest = labels[c + 1:]
     elif mode == "fh_abs":
         fh = case["fh"]
-        c = n - fh[-1] - 1
+        # the absolute time points need not reach the end of the series: what lies after
+        # them belongs to neither part
+        c = n - fh[-1] - 1 - min(case.get("abs_end_gap", 0), n - fh[-1] - 2)
         absl = [labels[c + h] for h in fh]
+        if absl[-1] != labels[-1]:
+            ctx.label("absolute_horizon_ends_before_series_end")
         from sktime.forecasting.base import ForecastingHorizon
 
         kw["fh"] = ForecastingHorizon(absl, is_relative=False)
@@ -472,6 +476,7 @@ def tts_cases(draw):
         rest = draw(st.lists(st.integers(1, hmax), max_size=4, unique=True))
         case["fh"] = sorted(set(rest + [hmax]))
         case["fh_kind"] = draw(st.sampled_from(["int", "list", "array", "fh"]))
+        case["abs_end_gap"] = draw(st.sampled_from([0, 0, 1, 2, 5]))
     return case
 
 
